@@ -59,6 +59,13 @@ def seeds() -> dict[str, list[tuple[str, bytes]]]:
     out["json"].append(("gen/json", b'{"title": "ZB00001", "items": [1, 2.5, null, true, {"k": "v \\u00e4"}], "nested": {"a": ["x", "y"]}}'))
     out["json"].append(("gen/json-lines", b'[{"id": 1, "text": "first ZB00002"}, {"id": 2, "text": "second"}]'))
     out["md"].append(("gen/md", b"# Title ZB00003\n\nSome *text* with a [link](http://example.org).\n\n| a | b |\n|---|---|\n| 1 | 2 |\n"))
+    # inputs with several results of which a later one fails: the CLI must not have printed the earlier ones
+    out["mbox"].append(("gen/mbox-second-undated", b"From a@b.c Thu Jan  1 00:00:00 2024\nSubject: first ZB00011\nFrom: a@b.c\nTo: d@e.f\nDate: Thu, 01 Jan 2024 00:00:00 +0000\n\nBody of the first message.\n\n"
+                        b"From a@b.c Thu Jan  1 00:00:01 2024\nSubject: second ZB00012\nFrom: a@b.c\nTo: d@e.f\n\nBody of the second message, which has no Date header.\n\n"))
+    from vf.props.c08 import build_zip
+    out["zip"].append(("gen/zip-second-member-unreadable", build_zip({"mech": "zip", "comment": "", "members": [
+        {"name": "a.txt", "text": "text ZB00013", "enc": False, "deflate": False, "flags": 0, "method": None},
+        {"name": "b.txt", "text": "text ZB00014", "enc": False, "deflate": False, "flags": 0, "method": 9}]})[0]))
     font, _ = cidpdf.digit_font()
     out["pdf"].append(("gen/cid", cidpdf.cid_pdf(font, [3, 11, 12, 4], {3: "A", 4: "B", 11: None, 12: None})))
     for e in EXTS:
